@@ -125,6 +125,14 @@ DEFS = [
     # an absent key with a default is not missing, whatever else the field carries
     struct("FMissDef", [field("a", U8, missing_fn=True, default=("expr", "9", num_rv(9))), field("b", BOOL, missing_fn=True),
                         field("c", U8, missing_fn=True, default="trait"), field("d", STR, default=("expr", "String::from(\"q\")", rv("str", s="q")))], error="RecErr"),
+    # remaining pairs / triples of per-field user-function attributes on one field (rename + from + map, try_from + custom missing,
+    # map + custom missing, from(&) + map + custom missing, try_from(&) + map + trait default): the two misses of round 8 were both
+    # combinations the catalogue lacked, so the combinations are now spelled out
+    struct("FCombo", [field("first_one", U8, rename="f1", frm={"kind": "from", "ty": U8, "ref": False}, mapfn=True),
+                      field("b", U8, frm={"kind": "try", "ty": U8, "ref": False}, missing_fn=True),
+                      field("c", BOOL, mapfn=True, missing_fn=True),
+                      field("d_e", STR, frm={"kind": "from", "ty": STR, "ref": True}, mapfn=True, missing_fn=True),
+                      field("e", U8, frm={"kind": "try", "ty": U8, "ref": True}, mapfn=True, default="trait")], error="RecErr", rename_all="camelCase"),
     struct("FDenyFn", [field("a", U8), field("sk", U8, skip=True), field("b_c", BOOL, default="trait")], error="RecErr", deny="fn", rename_all="camelCase"),
     struct("FAll", [field("a", U8, frm={"kind": "try", "ty": U8, "ref": False}, mapfn=False), field("b", U8, mapfn=True, default=("expr", "3", num_rv(3))),
                     field("c", STR, missing_fn=True)], error="RecErr", deny="fn", validate=True),
@@ -194,7 +202,7 @@ ENTRIES = [
     ("opt", ("hmap", "u8", ("arr", BOOL, 1))), ("tup", [("opt", U8), ("vec", ("vec", U8)), ("bmap", "String", I8)]), ("box", ("opt", ("box", STR))),
     ("vec", ("ref", "EUnit")), ("hmap", "String", ("ref", "ETagCamel")), ("bmap", "i32", ("ref", "SDefault")), ("opt", ("ref", "SMix")),
     ("vec", ("cs", "String")), ("hset", ("opt", U8)),
-    ("ref", "FFrom"), ("ref", "FTry"), ("ref", "FTryF"), ("ref", "FMap"), ("ref", "FFromMapDef"), ("ref", "FMissDef"), ("ref", "FValidate"), ("ref", "FMissing"), ("ref", "FDenyFn"), ("ref", "FAll"),
+    ("ref", "FFrom"), ("ref", "FTry"), ("ref", "FTryF"), ("ref", "FMap"), ("ref", "FFromMapDef"), ("ref", "FMissDef"), ("ref", "FCombo"), ("ref", "FValidate"), ("ref", "FMissing"), ("ref", "FDenyFn"), ("ref", "FAll"),
     ("ref", "GTry"), ("ref", "GEnum"), ("ref", "GCTry"), ("vec", ("ref", "GTry")),
     # probe-free twins (no enter / exit events: judged at the end of the call against the declarative semantics)
     ("bare", "SPlain"), ("bare", "SThree"), ("bare", "SCamel"), ("bare", "SLower"), ("bare", "SRename"), ("bare", "SDeny"), ("bare", "SDefault"), ("bare", "SOpt"),
